@@ -125,3 +125,63 @@ def init_chain_rule(repo: Repo, prop: str, rule_id: str, root: str, members: Ite
             key=f"class:{cls.name}",
         )
     return r
+
+
+# ---------------------------------------------------------------------------------------------------------------------
+def applied_once_rule(repo: Repo, prop: str, rule_id: str, methods=("scale", "translate", "rotate", "mirror", "transform"), module_prefixes=("construct.", "base."), floor: int = 3) -> RuleRun:
+    """An override that updates one of the object's own numbers itself (``self.side_1 = ratio * self.side_1``) and then hands over
+    to ``super().<same method>()`` applies the change twice when the inherited method updates the same attribute: the straight
+    sides of a spline ring grow with ratio squared, and everything derived from them (r_1, r_2, the outer radii that chain / expand
+    read) is wrong. For every transformation method that calls its inherited version, the attributes it updates in terms of
+    themselves are compared with those updated by every method further up the super() chain."""
+    from .report import RuleRun
+
+    r = RuleRun(prop, rule_id, floor=floor, what="an attribute updated in terms of itself by a transformation override is not updated again by the inherited method it calls")
+
+    def self_updates(fn: FuncInfo) -> Set[str]:
+        out: Set[str] = set()
+        for n in ast.walk(fn.node):
+            if isinstance(n, ast.AugAssign) and isinstance(n.target, ast.Attribute) and attr_chain(n.target.value) == fn.params[0]:
+                out.add(n.target.attr)
+            if isinstance(n, ast.Assign) and len(n.targets) == 1 and isinstance(n.targets[0], ast.Attribute) and attr_chain(n.targets[0].value) == fn.params[0]:
+                a = n.targets[0].attr
+                if any(isinstance(x, ast.Attribute) and x.attr == a and attr_chain(x.value) == fn.params[0] for x in ast.walk(n.value)):
+                    out.add(a)
+        return out
+
+    def calls_super(fn: FuncInfo, name: str) -> bool:
+        return any(isinstance(c, ast.Call) and isinstance(c.func, ast.Attribute) and c.func.attr == name and isinstance(c.func.value, ast.Call) and attr_chain(c.func.value.func) == "super" for c in ast.walk(fn.node))
+
+    n = 0
+    for cls in sorted(repo.classes.values(), key=lambda c: c.qualname):
+        short = cls.module.name[len("classy_blocks.") :] if cls.module.name.startswith("classy_blocks.") else cls.module.name
+        if not any(short.startswith(p) for p in module_prefixes):
+            continue
+        for name in methods:
+            fn = cls.methods.get(name)
+            if fn is None or not calls_super(fn, name):
+                continue
+            mine = self_updates(fn)
+            if not mine:
+                continue
+            n += 1
+            chain = []
+            for base in repo.mro(cls)[1:]:
+                up = base.methods.get(name)
+                if up is None:
+                    continue
+                chain.append(up)
+                if not calls_super(up, name):
+                    break
+            twice = {a: up for up in chain for a in self_updates(up) if a in mine}
+            r.check(
+                not twice,
+                fn,
+                f"{cls.name}.{name}: {sorted(mine)} updated here only",
+                f"{fn.qualname} updates {sorted(twice)} in terms of themselves and then calls super().{name}(), where {next(iter(twice.values())).qualname if twice else ''} updates them again: "
+                f"the change is applied twice ({cls.name}.{name}(2) multiplies {sorted(twice)[0] if twice else ''} by 4), and the radii derived from them are wrong afterwards",
+                fn.node,
+                key=f"{name}",
+            )
+    r.require(n >= floor - 2, f"only {n} self-updating overrides found")
+    return r
